@@ -123,6 +123,7 @@ struct World
 static World * W = NULL;
 
 static bool do_cop(const COp & o, bool inCallback);
+static std::string dump_only();           // the internal state of all nodes, as text (also emitted at every callback entry)
 static void check_links();                // pointer structure of the intrusive lists, evaluated also in the middle of a sweep
 static void check_inv(bool quiescent);   // developer aid (env PULSE_INVCHECK): the invariants the Coq proofs rest on, evaluated on the real objects
 
@@ -138,7 +139,7 @@ public:
       World & w = *W;
       const int k = w.ngt[_id]++;
       const uint64 now = args.GetCallbackTime(), prev = args.GetScheduledTime();
-      std::ostringstream e; e << "g" << _id << "#" << k << "(" << show_time(now) << "," << show_time(prev) << ")";
+      std::ostringstream e; e << "g" << _id << "#" << k << "(" << show_time(now) << "," << show_time(prev) << ")[" << dump_only() << "]";
       w.event(e.str());
       // oracle: the previous-value contract and the clock
       if (prev != w.sReq[_id]) w.fail("GetPulseTime received a previous value that is not what the node returned last");
@@ -165,7 +166,7 @@ public:
       World & w = *W;
       const int k = w.npl[_id]++;
       const uint64 now = args.GetCallbackTime(), st = args.GetScheduledTime();
-      std::ostringstream e; e << "p" << _id << "#" << k << "(" << show_time(now) << "," << show_time(st) << ")";
+      std::ostringstream e; e << "p" << _id << "#" << k << "(" << show_time(now) << "," << show_time(st) << ")[" << dump_only() << "]";
       w.event(e.str());
       // oracle: never early, never a withdrawn request, with the time that was asked for, once per sweep
       if (w.sStale[_id]) w.fail("Pulse called on a node whose request was withdrawn and not renewed");
@@ -268,6 +269,36 @@ static bool do_cop(const COp & o, bool inCallback)
          fprintf(stderr, "bad cop [%c]\n", o.c); exit(2);
    }
    return false;
+}
+
+static std::string dump_only()
+{
+   std::ostringstream o;
+   for (int i=0; i<MAXID; i++)
+   {
+      HNode * x = N(i); if (!x) continue;
+      o << i << "{";
+      if (x->_parent) o << idOf(x->_parent); else o << "-";
+      o << "," << show_time(x->_aggregatePulseTime) << "," << show_time(x->_myScheduledTime) << "," << (x->_myScheduledTimeValid ? 1 : 0) << ",";
+      switch(x->_curList)
+      {
+         case -1: o << "-"; break;
+         case PulseNode::LINKED_LIST_SCHEDULED:   o << "S"; break;
+         case PulseNode::LINKED_LIST_UNSCHEDULED: o << "U"; break;
+         case PulseNode::LINKED_LIST_NEEDSRECALC: o << "R"; break;
+         default: o << "?"; break;
+      }
+      o << ",";
+      const int order[3] = {PulseNode::LINKED_LIST_SCHEDULED, PulseNode::LINKED_LIST_UNSCHEDULED, PulseNode::LINKED_LIST_NEEDSRECALC};
+      for (int li=0; li<3; li++)
+      {
+         if (li) o << "/";
+         int steps = 0; bool first = true;
+         for (const PulseNode * p = x->_firstChild[order[li]]; (p)&&(steps++ <= MAXID+1); p = p->_nextSibling) {if (!first) o << "."; first = false; o << idOf(p);}
+      }
+      o << "}";
+   }
+   return o.str();
 }
 
 static void check_links()
